@@ -494,8 +494,8 @@ pub fn stress_local(rounds: usize) -> (usize, usize) {
 // C13 (c): the fence as its callers use it. A shard splitter's cut-over (which deactivates the old shard with the
 // generation it read) races with another node's correctly fenced update of the same shard (a leader move). Whatever
 // the interleaving, a writer that read the document before the other one wrote must lose: if the leader move was
-// acknowledged its changes are in the stored document, if the cut-over was acknowledged the shard is pending
-// deletion, and the stored generation counts the acknowledged updates.
+// acknowledged its changes are in the stored document, and if the cut-over was acknowledged the shard is pending
+// deletion.
 // ---------------------------------------------------------------------------------------------------------------------
 
 const OLD: &str = "old-shard";
@@ -595,11 +595,8 @@ impl Scenario for CutoverScenario {
         if a_ok && !matches!(stored.state, ShardState::PendingDeletion { .. }) {
             f.violations.push(Violation { sig: "C13:cutover-race:acknowledged-deactivation-overwritten-by-a-writer-on-older-state".into(), msg: format!("the cut-over was acknowledged, yet the old shard is not pending deletion: {desc}") });
         }
-        let want_gen = 1 + a_ok as u64 + b_ok as u64;
-        // (a cut-over that fails may still have deactivated the shard before failing on a later step)
-        if a_ok && stored.generation != want_gen {
-            f.violations.push(Violation { sig: "C13:cutover-race:stored-generation".into(), msg: format!("stored generation {} != 1 + acknowledged updates ({want_gen}): {desc}", stored.generation) });
-        }
+        // (how many updates a cut-over makes is its own business; that each one raises the generation by exactly one is
+        // what parts (a) and (b) check)
         if let Some(Err(e)) = &a {
             if e.contains("Stale") {
                 f.flags.push("cutover_rejected_as_stale".into());
